@@ -41,10 +41,18 @@ LOSSES = ["gaussian_loss", "cash_loss", "gaussian_loss_w_frac", "gaussian_loss_w
 NUIS_ORDER = ["frac_rms_increase", "sys_rms_base", "outlier_frac_base", "rms_frac"]
 
 
+# keyword options a caller may set (functools.partial(loss, c=…)); exact rationals so that the model sees the same number
+C_OPTS = [(5, 1), (3, 1), (5, 2), (10, 1)]          # first = the source default
+DELTA_OPTS = [(3, 1), (1, 1), (1, 2), (7, 1)]
+HAS_C = ("gaussian_mixture", "gaussian_mixture_w_sys", "gaussian_mixture_w_frac")
+SCALES = [1.0, 1e-5, 1e3, 1e-3]                       # flux units: the likelihoods are stated for any positive rms
+
+
 def gen_cases(rng, n):
     cases = []
     for i in range(n):
         loss = LOSSES[i % len(LOSSES)]
+        rnd = i // len(LOSSES)                          # how often this loss has been drawn so far
         npix = int(rng.choice([1, 6, 12]))   # few distinct shapes: every new shape recompiles each primitive
         m = rng.uniform(0.2, 50, size=npix) if loss == "cash_loss" or rng.random() < 0.5 else rng.normal(0, 20, size=npix)
         r = np.exp(rng.uniform(np.log(0.05), np.log(20), size=npix))
@@ -57,8 +65,28 @@ def gen_cases(rng, n):
             good[int(rng.integers(0, npix))] = True   # mean over zero pixels is a separate corner
         nuis = dict(frac_rms_increase=float(rng.uniform(-0.5, 2)), sys_rms_base=float(abs(rng.normal(0, 1))),
                     outlier_frac_base=float(rng.uniform(0.01, 5)), rms_frac=float(rng.uniform(-0.6, 2)))
-        cases.append(dict(loss=loss, m=m, d=d, r=r, good=good, nuis=nuis, suffix=str(rng.choice(["", "_a", "_7", "_F444W"]))))
+        scale = SCALES[rnd % len(SCALES)]
+        m, d, r = m * scale, d * scale, r * scale
+        if rnd % 3 == 1 and not good.all():
+            # what masked pixels of real images hold: NaN / inf data (the fitters sanitise rms only)
+            d = d.copy()
+            d[~good] = rng.choice([np.nan, np.inf, -np.inf], size=int((~good).sum()))
+        opts = dict(c=C_OPTS[(rnd // 2) % len(C_OPTS)] if loss in HAS_C and rnd % 2 == 1 else C_OPTS[0],
+                    delta=DELTA_OPTS[(rnd // 2) % len(DELTA_OPTS)] if loss == "pseudo_huber_loss" and rnd % 2 == 1 else DELTA_OPTS[0])
+        cases.append(dict(loss=loss, m=m, d=d, r=r, good=good, nuis=nuis, opts=opts, scale=scale,
+                          suffix=str(rng.choice(["", "_a", "_7", "_F444W"]))))
     return cases
+
+
+def opt_kwargs(c):
+    """the keyword arguments the case passes beyond the defaults"""
+    o = c.get("opts") or {}
+    kw = {}
+    if c["loss"] in HAS_C and tuple(o.get("c", C_OPTS[0])) != C_OPTS[0]:
+        kw["c"] = o["c"][0] / o["c"][1]
+    if c["loss"] == "pseudo_huber_loss" and tuple(o.get("delta", DELTA_OPTS[0])) != DELTA_OPTS[0]:
+        kw["delta"] = o["delta"][0] / o["delta"][1]
+    return kw
 
 
 def real_eval(payload):
@@ -76,7 +104,8 @@ def real_eval(payload):
         m, d, r = (jnp.asarray(c[k], dtype=ft) for k in ("m", "d", "r"))
         good = jnp.asarray(c["good"])
         subst = {k + sfx: jnp.asarray(v, dtype=ft) for k, v in c["nuis"].items()}
-        model = lambda: fn(m, d, r, good, suffix=sfx)  # noqa: E731
+        kw = opt_kwargs(c)
+        model = lambda: fn(m, d, r, good, suffix=sfx, **kw)  # noqa: E731
         try:
             tr = handlers.trace(handlers.substitute(handlers.seed(model, 0), data=subst)).get_trace()
         except Exception as e:
@@ -95,7 +124,7 @@ def real_eval(payload):
                                    dist=type(getattr(s["fn"], "base_dist", s["fn"])).__name__)
             elif s["type"] == "deterministic":
                 sites[name] = dict(kind="deterministic", value=np.asarray(s["value"], dtype=np.float64))
-        out.append(dict(sites=sites))
+        out.append(dict(sites=sites, total=float(sum(np.sum(v["logp"]) for v in sites.values() if v["kind"] == "observed"))))
     return out
 
 
@@ -104,8 +133,10 @@ def model_line(c):
     px = []
     for m, d, r, g in zip(c["m"], c["d"], c["r"], c["good"]):
         px += [f2h(m), f2h(d), f2h(r), "1" if g else "0"]
-    return "loss %s %s %s %s %s %s" % (c["loss"], f2h(n["frac_rms_increase"]), f2h(n["sys_rms_base"]),
-                                       f2h(n["outlier_frac_base"]), f2h(n["rms_frac"]), " ".join(px))
+    o = c.get("opts") or dict(c=C_OPTS[0], delta=DELTA_OPTS[0])
+    return "lossopt %d %d %d %d %s %s %s %s %s %s" % (o["c"][0], o["c"][1], o["delta"][0], o["delta"][1],
+                                                      c["loss"], f2h(n["frac_rms_increase"]), f2h(n["sys_rms_base"]),
+                                                      f2h(n["outlier_frac_base"]), f2h(n["rms_frac"]), " ".join(px))
 
 
 def parse_model(reply):
@@ -203,19 +234,21 @@ def doc_logpdf(c, sites):
         return stats.norm.logpdf(d, m, np.sqrt(r ** 2 + det("sys_rms") ** 2))
     if loss == "cash_loss":
         return -(m - d * np.log(m))
+    o = c.get("opts") or dict(c=C_OPTS[0], delta=DELTA_OPTS[0])
+    cw = o["c"][0] / o["c"][1]                # "outlier component c times wider"
     if loss == "pseudo_huber_loss":
-        delta = 3.0
+        delta = o["delta"][0] / o["delta"][1]
         a = (d - m) / r
         return -(delta ** 2) * (np.sqrt(1 + (a / delta) ** 2) - 1)
     if loss.startswith("gaussian_mixture"):
         cfrac = det("outlier_frac")
         if loss == "gaussian_mixture":
-            s1, s2 = r, 5 * r
+            s1, s2 = r, cw * r
         elif loss == "gaussian_mixture_w_sys":
             s1 = np.sqrt(r ** 2 + det("sys_rms") ** 2)
-            s2 = 5 * s1
+            s2 = cw * s1
         else:
-            s1, s2 = (1 + n["rms_frac"]) * r, 5 * r
+            s1, s2 = (1 + n["rms_frac"]) * r, cw * r
         return logsumexp([np.log(1 - cfrac) + stats.norm.logpdf(d, m, s1), np.log(cfrac) + stats.norm.logpdf(d, m, s2)], axis=0)
     if loss == "student_t_loss":
         # ν = 5 and scale √((ν−2)/2)·rms (pinned by Props.C07.repo_student_df / studentT_form); documented σ = rms
@@ -242,14 +275,18 @@ def oracle_case(c, real, tol_abs=1e-4, tol_rel=1e-5):
     def v(clause, msg):
         return Violation(f"C07:{clause}:{c['loss']}", f"{c['loss']}: {msg}", dict(kind="oracle", case=ser(c), clause=clause))
     if doc is not None:
-        exp = np.where(good, doc, 0.0)
-        bad = ~(np.abs(rl - exp) <= tol_abs + tol_rel * np.abs(exp))
+        with np.errstate(all="ignore"):
+            exp = np.where(good, doc, 0.0)
+            bad = ~(np.abs(rl - exp) <= tol_abs + tol_rel * np.abs(exp))
         if bad.any():
             i = int(np.argmax(bad))
             out.append(v("formula", f"per-pixel log-density {rl[i]:.8g} differs from the documented likelihood {exp[i]:.8g} "
                                     f"(m={c['m'][i]:.6g}, d={c['d'][i]:.6g}, rms={c['r'][i]:.6g}, unmasked={bool(good[i])})"))
     if np.any(rl[~good] != 0):
         out.append(v("masked-nonzero", "masked pixel contributes to the log-density"))
+    if good.any() and np.all(np.isfinite(np.asarray(doc if doc is not None else 0.0)[good])) and not np.isfinite(real.get("total", 0.0)):
+        out.append(v("masked-poison", f"the summed log-density of the site is {real.get('total')} although every unmasked pixel is finite "
+                                      f"(data under the mask: {[float(x) for x in np.asarray(c['d'])[~good][:4]]})"))
     # documented supports of nuisance parameters
     doc_sup = {"frac_rms_increase": (-0.5, 2.0), "sys_rms_base": (0.0, np.inf), "outlier_frac_base": (0.0, 5.0), "rms_frac": (-2.0 / 3.0, 2.0)}
     for k, (lo, hi) in doc_sup.items():
@@ -280,9 +317,10 @@ def student_structure(ctx):
     cases = []
     for _ in range(20):
         m = float(rng.normal(0, 5))
-        r = float(np.exp(rng.uniform(-2, 2)))
+        r = float(np.exp(rng.uniform(-14, 8)))     # any flux unit: 1e-6 … 3e3
         t = float(rng.uniform(0.1, 30))
         a = float(np.exp(rng.uniform(-2, 2)))
+        m = m * r
         base = dict(loss="student_t_loss", good=np.ones(4, bool), nuis=dict(frac_rms_increase=0., sys_rms_base=0.5, outlier_frac_base=1., rms_frac=0.), suffix="")
         cases.append(dict(base, m=np.full(4, m), d=np.array([m + t * r, m - t * r, m + a * t * r, m]), r=np.array([r, r, a * r, r]), meta=(m, r, t, a)))
     res = run_children("c07", "real_eval", [dict(cases=cases)], x64=True)[0]
